@@ -312,6 +312,12 @@ func (fs *FS) Step(o fsx.Op, h, h2 []byte, r *fsx.Reply) (implFail bool, err *Mi
 		if o.Atime != 0 {
 			obj.Atime = o.Atime
 		}
+		if o.STime&1 != 0 {
+			obj.Mtime = 0 // the server's time: not predicted
+		}
+		if o.STime&2 != 0 {
+			obj.Atime = 0
+		}
 		return false, fs.checkAttr(obj, r.Attr, k)
 	case "LOOKUP":
 		if obj == nil {
